@@ -171,6 +171,11 @@ class CallMixin:
             return self.instantiate(self.tree.classes[f.args[0]], args, kw, fr, node)
         if k == "ext":
             return self.ext_call(f.args[0], args, kw, fr, node)
+        if k == "call" and f.args[0].kind == "ext" and f.args[0].args[0] == "operator.itemgetter" and len(f.args[1]) == 1 and len(args) == 1 and not kw:
+            return self.mk_index(args[0], f.args[1][0])       # operator.itemgetter(i)(x) is x[i]
+        if k == "call" and f.args[0].kind == "ext" and f.args[0].args[0] == "operator.attrgetter" and len(f.args[1]) == 1 and len(args) == 1 and not kw \
+                and f.args[1][0].kind == "const" and isinstance(f.args[1][0].args[0], str) and "." not in f.args[1][0].args[0]:
+            return self.mk_attr(args[0], f.args[1][0].args[0], fr)
         if k == "phi":
             return self.mk_phi([self.apply(a, args, kw, fr, node) for a in f.args[0]])
         if k == "choice":
@@ -728,6 +733,11 @@ class CallMixin:
             ci = self.typeof(args[0])
             if ci is not None:
                 return const(self.tree.is_subclass(ci, args[1].args[0]))
+        return None
+
+    def x_operator_getitem(self, args, kw, fr, node):
+        if len(args) == 2 and not kw:
+            return self.mk_index(args[0], args[1])
         return None
 
     def x_builtins_getattr(self, args, kw, fr, node):
